@@ -38,6 +38,9 @@ FIXED = [
     "fixed: property=C11 968305c IR-level constant propagation did not wrap + - * ** << to 32 bits and took the remainder's sign from the divisor (division itself stays floor: listed finding)",
     "fixed: property=C11 14bbd6c `int k = 7 + 3;` declared a signal and `(\"t\", 5 * 2 - 9)` / `(\"t\", k)` produced 0: int-typed folds were returned as constant signals",
     "fixed: property=C16 b2d189c a Memory declared in a loop body (or in a function called twice, C15) was one shared cell: the memory id was derived from the declared name only",
+    "fixed: property=C17 d6a9565 the documented `import \"lib/math.facto\";` only resolved when the working directory was the repository root (default import path listed the package directory instead of the repository root)",
+    "fixed: property=C17 a03a28a an import cycle leading back to the compiled file inlined its text a second time (uses before definitions, duplicate definitions)",
+    "fixed: property=C15 b2d189c two calls of a function declaring a Memory shared one cell (same commit as the C16 entry)",
     "fixed: property=C01 7701d37 a comparison with an integer literal on the left (`3 < a`) was emitted as `signal-0 < a`",
 ]
 
@@ -123,6 +126,17 @@ add("C16", K1, K1_WHAT, "K1",
             ["place", "lamp", "small-lamp", ["b", "*", ["v", "i"], ["n", 2]], ["n", 20], None],
             ["set", "lamp", "enable", ["c", ">", ["b", "+", ["v", "x"], ["v", "kv"]], ["n", 17]]]]]],
          "body_literal_nest1", nval=2))
+
+
+# ---- C17
+add("C17", "C17-cwd-file-shadows-bundled-library",
+    "the import search path puts the working directory ('.' and example_programs) before the bundled library, so a "
+    "file named math.facto / lib/math.facto in the directory the compiler is started from replaces the bundled "
+    "library: resolution of a library import depends on the working directory",
+    "resolve_import_path: FACTORIO_IMPORT_PATH default '.;example_programs;<pkg>;<repo>/lib;...' searched in order; "
+    "observed as the decoy's marker value 12345 in the executed blueprint",
+    {"stratum": "lib_decoy_in_cwd", "kind": "lib", "fn": "abs", "ints": [], "ntuples": 10, "decoy_cwd": True,
+     "import_as": "math.facto", "vseed": 5, "sseed": 5, "pseed": 5})
 
 
 def main():
